@@ -248,6 +248,7 @@ func (s *Server) manifestPut(repoStr, arg string) http.HandlerFunc {
 			}
 		}
 		// parse arg
+		dParam := dExpect
 		if types.RefTagRE.MatchString(arg) {
 			tag = arg
 		} else {
@@ -285,6 +286,15 @@ func (s *Server) manifestPut(repoStr, arg string) http.HandlerFunc {
 			_ = types.ErrRespJSON(w, types.ErrInfoDigestInvalid("digest mismatch, expected "+d.String()))
 			s.log.Debug("content digest did not match request", "repo", repoStr, "arg", arg, "expect", d.String())
 			return
+		}
+		// a digest parameter given in addition to a digest reference must match the content too
+		if dParam != "" && dParam != dExpect {
+			if dp := dParam.Algorithm().FromBytes(mRaw); dp != dParam {
+				w.WriteHeader(http.StatusBadRequest)
+				_ = types.ErrRespJSON(w, types.ErrInfoDigestInvalid("digest mismatch, expected "+dp.String()))
+				s.log.Debug("content digest did not match digest parameter", "repo", repoStr, "arg", arg, "expect", dp.String())
+				return
+			}
 		}
 		// the content-type header must be consistent with the manifest content
 		if mt != "" {
